@@ -105,6 +105,11 @@ def gen_mc_prog(rng, max_actors=3, max_ops=4, kinds=("mutex", "sem", "bar", "com
         if na >= 2 and rng.random() < 0.4 and not any(o["op"] == "join" and o["o"] == na for a in actors for o in a):
             spawn[na - 1] = True        # (nobody joins an actor that may not exist yet: the driver would abort)
             actors[0].insert(slot(actors[0]), op("create", na))
+    if "rand" in kinds and rng.random() < 0.3:      # MC_random: transitions with several outcomes (times_considered > 0)
+        for _ in range(rng.randint(1, 2)):
+            a = rng.randrange(na)
+            if sum(1 for o in actors[a] if o["op"] == "rand") < 2:
+                actors[a].insert(slot(actors[a]), op("rand", rng.randint(1, 2)))
     return new_prog(rec=rec, cap=cap, bar=bar, ncv=ncv, actors=actors, perm=[0] * nx, timed=False, gran="mc", spawn=spawn)
 
 
@@ -120,6 +125,9 @@ def parse_transition(tr, pidmap):
     m = re.search(r"owner: (-?\d+)", tr)
     if m:
         d["cown"] = pidmap.get(int(m.group(1)), 0) if int(m.group(1)) >= 0 else 0
+    m = re.search(r"Random\(\[(-?\d+);(-?\d+)\] ~> (-?\d+)\)", tr)
+    if m:
+        d["cmax"], d["cval"] = int(m.group(2)), int(m.group(3))
     m = re.search(r"(?:target|child) (-?\d+)", tr)
     if m:
         d["ctgt"] = pidmap.get(int(m.group(1)), 0) if int(m.group(1)) >= 0 else 0
@@ -297,6 +305,7 @@ def run_simgrid_mc(ctx, idx, prog, reduction="odpor", extra_cfg=(), timeout=120,
            "replays": re.findall(r"model-check/replay:'([0-9;/]*)'", text), "timeout": rc == 124}
     m = re.search(r"(\d+) unique states visited; (\d+) explored traces", text)
     res["explored_traces"] = int(m.group(2)) if m else None
+    res["crash"] = "no-such-actor" if re.search(r"Actor -?\d+ does not exist in state", text) else ""
     res["_args"] = (idx, prog, reduction, tuple(extra_cfg), timeout, with_checker_view)
     # counter-example blocks
     ces, cur = [], None
@@ -381,11 +390,23 @@ def regression_progs():
     ]
 
 
-def programs(ctx, n, max_actors=3, max_ops=4):
+ALL_KINDS = ("mutex", "sem", "bar", "comm", "cv", "life", "rand")
+
+
+def programs(ctx, n, max_actors=3, max_ops=4, kinds=None):
+    """Regression programs + seeded random ones; kinds=ALL_KINDS adds MC_random (not for the checks that rebuild transitions
+    from views: C39, C40, C42)."""
     progs = regression_progs()
+    if kinds and "rand" in kinds:
+        progs.append(new_prog(rec=[False], timed=False, gran="mc",
+                              actors=[[op("rand", 2), op("lock", 1), op("rand", 1), op("unlock", 1)], [op("lock", 1), op("rand", 1), op("unlock", 1)]]))
+        # a deadlock reached only after MC_random took its last outcome and another one its first (replay paths "a/2;...;a")
+        progs.append(new_prog(rec=[False, False], timed=False, gran="mc",
+                              actors=[[op("rand", 2), op("lock", 1), op("rand", 1), op("lock", 2), op("unlock", 2), op("unlock", 1)],
+                                      [op("lock", 2), op("lock", 1), op("unlock", 1), op("unlock", 2)]]))
     seen = {vlib.canon_hash(p) for p in progs}
     while len(progs) < n + 3:
-        p = gen_mc_prog(ctx.rng, max_actors, max_ops)
+        p = gen_mc_prog(ctx.rng, max_actors, max_ops, kinds) if kinds else gen_mc_prog(ctx.rng, max_actors, max_ops)
         h = vlib.canon_hash(p)
         if h not in seen:
             seen.add(h)
@@ -404,13 +425,31 @@ def reference(ctx, progs, timeout=900):
     return outs
 
 
+def has_rand(p):
+    return any(o["op"] == "rand" for a in p["actors"] for o in a)
+
+
 def explore_all(ctx, progs, reductions, extra_cfg=(), timeout=180):
-    """simgrid-mc on every (program, reduction); returns dict (i, red) -> result (see run_simgrid_mc)."""
+    """simgrid-mc on every (program, reduction); returns dict (i, red) -> result (see run_simgrid_mc).
+    Known findings (KNOWN_FINDINGS.jsonl, C38): on programs with MC_random, ODPOR may not terminate and SDPOR / ODPOR may die on
+    'Actor -1 does not exist in state': such a run is reported under its own signature (the known-findings file decides), given a
+    short time limit, and left out of the result so that the callers compare what can be compared."""
     jobs = [(i, red) for i in range(len(progs)) for red in reductions]
     drivers.get("kdrv")
-    res = vlib.parallel_map(lambda j: run_simgrid_mc(ctx, j[0] * 10 + reductions.index(j[1]), progs[j[0]], j[1], extra_cfg, timeout),
-                            jobs, nproc=8)
-    return dict(zip(jobs, res))
+
+    def one(j):
+        fragile = has_rand(progs[j[0]]) and j[1] in ("sdpor", "odpor")
+        return run_simgrid_mc(ctx, j[0] * 10 + reductions.index(j[1]), progs[j[0]], j[1], extra_cfg, min(timeout, 45) if fragile else timeout)
+    res = dict(zip(jobs, vlib.parallel_map(one, jobs, nproc=8)))
+    for (i, red), r in list(res.items()):
+        if has_rand(progs[i]) and red in ("sdpor", "odpor") and (r["timeout"] or r["crash"]):
+            how = "crash" if r["crash"] else "hang"
+            ctx.violation("reduction %s on a program with MC_random: %s" %
+                          (red, "the checker dies on 'Actor -1 does not exist in state'" if r["crash"] else "the exploration does not terminate (45 s)"),
+                          files={"program.json": json.dumps(progs[i]), "program.txt": K.prog_to_txt(progs[i]), "simgrid-mc.out": r["out"][-4000:]},
+                          signature="C38:mc-random:%s:%s" % (red, how), detail=json.dumps(K.prog_brief(progs[i])))
+            del res[(i, red)]
+    return res
 
 
 def validate_explorations(ctx, progs, results, _confirm=True):
